@@ -283,5 +283,49 @@ pub fn build(bins: &Binaries, repo: &Path, verif: &Path, thorough: bool, scratch
             }
         }
     }
+    // every example directory as it is shipped (all of its files, not only those one task names): which of several
+    // candidates plays a role is decided by name order alone, never by creation order or modification time
+    let mut seen_dirs = BTreeSet::new();
+    for t in &tasks {
+        if !t.dir.starts_with(repo) || !seen_dirs.insert(t.dir.clone()) {
+            continue;
+        }
+        let mut all: Vec<(String, String)> = vec![];
+        if let Ok(rd) = fs::read_dir(&t.dir) {
+            let mut names: Vec<PathBuf> = rd.filter_map(|e| e.ok().map(|e| e.path())).filter(|p| p.is_file()).collect();
+            names.sort();
+            for p in names {
+                let n = p.file_name().unwrap().to_string_lossy().into_owned();
+                if n.starts_with('.') || n == "README.md" {
+                    continue;
+                }
+                if let Ok(c) = fs::read_to_string(&p) {
+                    all.push((n, c));
+                }
+            }
+        }
+        if all.len() < 2 {
+            continue;
+        }
+        let equivalence: Vec<String> = {
+            let mut v = vec![];
+            let mut it = t.options.iter();
+            while let Some(o) = it.next() {
+                if o == "--equivalence" {
+                    v.push(o.clone());
+                    if let Some(x) = it.next() {
+                        v.push(x.clone());
+                    }
+                } else if o.starts_with("--equivalence=") || o == "--bypass-tightness" {
+                    v.push(o.clone());
+                }
+            }
+            v
+        };
+        let mut args = vec![s("verify")];
+        args.extend(equivalence);
+        args.extend([s("--no-proof-search"), s("--save-problems"), s("$OUT"), s("$IN")]);
+        cmds.push(Cmd { id: format!("verify-wholedir:{}", t.id), kind: s("verify-dir"), args, files: all, stdin_file: None, uses_out: true });
+    }
     Workload { cmds, theories_accepted, theories_rejected }
 }
